@@ -121,6 +121,24 @@ def IR.applyMods (origOff : Nat) (func : Option Nat) : IR → Option Nat → Int
           | .error e => .error e
           | .ok (ir', r) => IR.applyMods origOff func ir' r (total - (len : Int)) ms
 
+/-- the resolved requests of one block, as `apply()` hands them to `_apply_modifications` -/
+structure BlockMods where
+  block : Nat
+  func : Option Nat      -- the function of the block (`functions_by_block`), if any
+  mods : List Mod
+
+/-- `apply()`'s loop over the blocks that have requests (in address order): every block has a
+byte interval of its own during the rewrite, its requests are applied by `IR.applyMods` -/
+def IR.applyAll : IR → List BlockMods → Except Err IR
+  | ir, [] => .ok ir
+  | ir, r :: rest =>
+    match ir.block? r.block with
+    | none => .error (.assertion "block not in module")
+    | some blk =>
+      match ir.applyMods blk.off r.func (some r.block) 0 r.mods with
+      | .error e => .error e
+      | .ok ir' => IR.applyAll ir' rest
+
 /-- the request as a listing edit (what `Listing.spliceSpec` consumes): only offset, removed
 length and inserted bytes matter for the bytes -/
 def Mod.toLEdit (m : Mod) : LEdit :=
